@@ -8,7 +8,7 @@
      the result is a copy of lhs (rules and final states);  its cluster map is made exclusive (uniqueClusterMap, C11) BEFORE the clusters of rhs are range-inserted
      into it, from rhs's own map begin() to end();  rhs's final states are range-inserted into the result's own final states;  the operands are only read. */
 AUT *g_lhs, *g_rhs, *g_ret; void *g_pl, *g_pr, *m_l, *m_r, *m_res;
-uint64_t g_umaps, g_step, g_funcs, g_tws; void *g_lm1, *g_lm2, *g_cnt1, *g_cnt2, *g_f1, *g_f2, *g_tw1, *g_tw2, *g_tw1_map, *g_tw2_map, *g_tw1_f, *g_tw2_f; _Bool g_ret_destroyed, g_ok1, g_ok2, g_ucm, g_rins_c, g_rins_f;
+uint64_t g_umaps, g_step, g_funcs, g_tws; void *g_lm1, *g_lm2, *g_cnt1, *g_cnt2, *g_f1, *g_f2, *g_tw1, *g_tw2, *g_tw1_map, *g_tw2_map, *g_tw1_f, *g_tw2_f; _Bool g_ret_destroyed, g_ok1, g_ok2, g_ucm, g_rins_c, g_rins_f, g_share;
 #define UG g_umaps, g_step, g_funcs, g_tws, g_lm1, g_lm2, g_cnt1, g_cnt2, g_f1, g_f2, g_tw1, g_tw2, g_tw1_map, g_tw2_map, g_tw1_f, g_tw2_f, g_ret_destroyed, g_ok1, g_ok2, g_ucm, g_rins_c, g_rins_f
 #define CONTRACT_UNION \
   __CPROVER_requires(v_lhs == g_lhs && v_rhs == g_rhs && v_agg_result == g_ret && v_pTranslMapLhs == g_pl && v_pTranslMapRhs == g_pr && g_umaps == 0 && g_step == 0 && g_funcs == 0 && g_tws == 0 && !g_ret_destroyed) \
